@@ -116,7 +116,27 @@ def terminal_file(rng):
         l = Line("pred", "P.C11", [cs, a, a], note="returned " + res)
         l.expect = "no-error-expected"
         lines.append(l)
-    return Case(name, {"tree": proto.pretty_tree(t), "sid": sid, "reqs": reqs, "params": params, "result": res[:50]},
+    second = None
+    if rng.random() < 0.4:
+        # a second sentence with the same id served from the same terminal file (every file of a directory numbers
+        # its sentences from 1; the same tree processed again): the file says the same thing about it
+        t2 = t if rng.random() < 0.3 else treegen.gen_tree(rng, treegen.Cfg(n_min=1, n_max=8, labels=treegen.PLAIN_LABELS))
+        t2 = tx.fresh(t2, sid)
+        tag_uids(t2)
+        a2 = proto.enc_tree(t2)
+        try:
+            with quiet():
+                ret2 = getattr(transform, name)(t2, **p2)
+            res2 = proto.enc_tree_checked(ret2)
+        except Exception as e:
+            res2 = proto.err_name(e)
+            ret2 = None
+        lines.append(Line("corr", "apply", [cs, a2], res2))
+        if ret2 is not None:
+            lines.append(Line("pred", "P.C11", [cs, a2, res2]))
+        second = proto.pretty_tree(t2)
+    return Case(name, {"tree": proto.pretty_tree(t), "sid": sid, "reqs": reqs, "params": params, "result": res[:50],
+                       "second-tree-same-id-same-file": second},
                 lines, nontrivial=res != proto.enc_tree(t, canon=True))
 
 
